@@ -89,14 +89,26 @@ EXC_ATTRIBUTION = [
 ]
 
 
-def attribute_exception(err: Dict[str, Any]) -> Optional[str]:
+def attribute_exception(err: Dict[str, Any]) -> List[str]:
+    """properties whose anchored mechanism the escaping exception came out of: the innermost pams
+    frame decides, plus any rule/index frame further up the stack (e.g. an index market asking a
+    component for a future value fails inside Market but because of the stepping order)."""
     pf = err.get("pams_frame")
     if not pf:
-        return None
+        return []
+    out: List[str] = []
     for path, funcs, prop in EXC_ATTRIBUTION:
         if pf[0].startswith(path) and (funcs is None or pf[1] in funcs):
-            return prop
-    return None
+            out.append(prop)
+            break
+    for fr in err.get("pams_stack", [])[:-1]:
+        for path, prop in (("pams/index_market.py", "C17"), ("pams/events/price_limit_rule.py", "C15"),
+                           ("pams/events/order_mistake_shock.py", "C14"), ("pams/events/fundamental_price_shock.py", "C14"),
+                           ("pams/events/trading_halt_rule.py", "C16"), ("pams/fundamentals.py", "C12"),
+                           ("pams/agents/", "C20")):
+            if fr[0].startswith(path) and prop not in out:
+                out.append(prop)
+    return out
 
 
 def run_guarded(check: Check, scn: Dict[str, Any], budget_s: float, runfn=None) -> Dict[str, Any]:
@@ -129,15 +141,16 @@ def summarize(check: Check, batch: Batch, idx: int, scn, res) -> Dict[str, Any]:
         viols.append({"property": wprop, "kind": "watchdog_timeout", "event": -1, "time": -1,
                       "detail": {"where": res["watchdog"][:4]}})
     if err is not None and not err.get("expected"):
-        prop = attribute_exception(err)
+        props = attribute_exception(err)
         custom = check.exc_is_violation(err, scn, res) if check.exc_is_violation else None
         if custom is not None:
-            prop = custom if custom else None
-        if prop is not None:
+            props = [custom] if custom else []
+        for prop in props:
             viols.append({"property": prop, "kind": "exception_" + err["type"] + "_in_" + (err["pams_frame"] or ["?", "?"])[1],
                           "event": res.get("n_events", -1), "time": -1,
-                          "detail": {"type": err["type"], "msg": err["msg"], "frame": err["pams_frame"], "phase": res.get("phase")}})
-        else:
+                          "detail": {"type": err["type"], "msg": err["msg"], "frame": err["pams_frame"], "phase": res.get("phase"),
+                                     "stack": err.get("pams_stack", [])[-4:]}})
+        if not props:
             anomalies.append({"type": err["type"], "msg": err["msg"][:120], "frame": err["pams_frame"], "phase": res.get("phase")})
     out = {
         "idx": idx, "batch": batch.name, "violations": viols, "stats": res.get("stats", {}),
